@@ -32,6 +32,7 @@ import (
 	"github.com/codenotary/immudb/embedded/appendable/fileutils"
 	"github.com/codenotary/immudb/embedded/appendable/singleapp"
 	"github.com/codenotary/immudb/embedded/cache"
+	"github.com/codenotary/immudb/embedded/verifhook"
 
 	"golang.org/x/sync/singleflight"
 )
@@ -535,6 +536,9 @@ func (mf *MultiFileAppendable) DiscardUpto(off int64) error {
 		err = os.Remove(appFile)
 		if err != nil && !os.IsNotExist(err) {
 			return err
+		}
+		if verifhook.On {
+			verifhook.Emit("FRemove", appFile)
 		}
 
 		dirSyncNeeded = true
